@@ -5,6 +5,7 @@ import (
 	"fmt"
 	"io"
 	"net"
+	"os"
 	"strconv"
 	"syscall"
 	"time"
@@ -44,6 +45,8 @@ type TCPEnd struct {
 	eof      bool // peer's FIN has arrived
 	reset    bool
 	closed   bool // closed locally
+	wclosed  bool // write side shut down locally (half-close): the peer sees end of stream, this end still reads
+	rdl, wdl time.Time
 	lastArr  time.Time
 	Writes   int
 	Written  []byte // every byte accepted from this end's writer, in order
@@ -244,6 +247,19 @@ func (e *TCPEnd) doClose() {
 	})
 }
 
+// doCloseWrite: half-close. The peer reads end of stream after lat; this end keeps reading.
+func (e *TCPEnd) doCloseWrite(lat time.Duration) {
+	if e.closed || e.wclosed {
+		return
+	}
+	e.wclosed = true
+	e.n.Fired["tcp-half-close"]++
+	e.n.event("tcp-shutdown-write", e.Local.String(), e.Remote.String(), e.ID, fmt.Sprint("proxy=", e.Proxy))
+	e.arriveAfter(lat, func(p *TCPEnd) {
+		p.eof = true
+	})
+}
+
 func (e *TCPEnd) doReset() {
 	e.reset = true
 	p := e.Peer
@@ -259,7 +275,7 @@ func (e *TCPEnd) doReset() {
 
 // Write sends bytes from an actor end subject to the world's segmentation faults.
 func (e *TCPEnd) Write(data []byte) {
-	if e.closed || e.reset {
+	if e.closed || e.reset || e.wclosed {
 		return
 	}
 	e.Writes++
@@ -301,6 +317,11 @@ func (e *TCPEnd) WriteExact(data []byte, lat time.Duration) {
 }
 
 func (e *TCPEnd) Close() { e.doClose() }
+
+// CloseWrite half-closes an actor end (it keeps receiving); CloseWriteExact makes the end of stream arrive after exactly lat.
+func (e *TCPEnd) CloseWrite()                        { e.doCloseWrite(e.n.latency()) }
+func (e *TCPEnd) CloseWriteExact(lat time.Duration) { e.doCloseWrite(lat) }
+func (e *TCPEnd) WriteClosed() bool                  { return e.wclosed }
 
 // Reset aborts the connection: both ends see errors from now on.
 func (e *TCPEnd) Reset() {
@@ -485,6 +506,14 @@ func Dial(network, address string) (net.Conn, error) {
 		}
 		return c, nil
 	}
+	switch network {
+	case "udp", "udp4", "udp6":
+		ip, port, err := resolveHostPort(network, address)
+		if err != nil {
+			return nil, err
+		}
+		return DialUDP(network, nil, &net.UDPAddr{IP: ip, Port: port})
+	}
 	return nil, fmt.Errorf("simnet: Dial network %q not simulated", network)
 }
 
@@ -501,7 +530,7 @@ type readOp struct {
 
 func (o *readOp) Ready() bool {
 	e := o.e
-	return len(e.rbuf) > 0 || e.eof || e.reset || e.closed
+	return len(e.rbuf) > 0 || e.eof || e.reset || e.closed || (!e.rdl.IsZero() && !time.Now().Before(e.rdl))
 }
 func (o *readOp) Do() {
 	e := o.e
@@ -528,12 +557,18 @@ func (o *readOp) Do() {
 		o.err = &net.OpError{Op: "read", Net: "tcp", Err: syscall.ECONNRESET}
 		return
 	}
+	if !e.eof {
+		o.err = &net.OpError{Op: "read", Net: "tcp", Err: os.ErrDeadlineExceeded}
+		n.Fired["read-deadline-expired"]++
+		return
+	}
 	o.err = io.EOF
 }
 func (o *readOp) OpName() string { return "read-tcp" }
 
 //go:norace
 func (c *TCPConn) Read(b []byte) (int, error) {
+	armDeadlineWake(c.e.n, c.e.rdl)
 	if len(b) == 0 {
 		return 0, nil
 	}
@@ -577,6 +612,19 @@ func (o *writeOp) Do() {
 	}
 	if e.closed {
 		fail(net.ErrClosed, "closed")
+		return
+	}
+	if !e.wdl.IsZero() && !time.Now().Before(e.wdl) {
+		// not a failure of the connection: nothing was written, the connection stays usable
+		e.Writes--
+		o.err = &net.OpError{Op: "write", Net: "tcp", Err: os.ErrDeadlineExceeded}
+		em.Err = "write-deadline"
+		n.Fired["write-deadline-expired"]++
+		n.event("tcp-write-timeout", e.Local.String(), e.Remote.String(), e.ID, "")
+		return
+	}
+	if e.wclosed {
+		fail(syscall.EPIPE, "shut-down")
 		return
 	}
 	if e.reset {
@@ -667,12 +715,68 @@ func (c *TCPConn) RemoteAddr() net.Addr {
 	return &net.TCPAddr{IP: cloneIP(a.IP), Port: a.Port}
 }
 
-func (c *TCPConn) SetDeadline(t time.Time) error      { return nil }
-func (c *TCPConn) SetReadDeadline(t time.Time) error  { return nil }
-func (c *TCPConn) SetWriteDeadline(t time.Time) error { return nil }
-func (c *TCPConn) SetKeepAlive(bool) error            { return nil }
-func (c *TCPConn) SetNoDelay(bool) error              { return nil }
-func (c *TCPConn) CloseWrite() error                  { return c.Close() }
+func (c *TCPConn) SetDeadline(t time.Time) error {
+	e := c.e
+	return setDeadline("tcp", func() bool { return e.closed }, func() { e.rdl, e.wdl = t, t })
+}
+func (c *TCPConn) SetReadDeadline(t time.Time) error {
+	e := c.e
+	return setDeadline("tcp", func() bool { return e.closed }, func() { e.rdl = t })
+}
+func (c *TCPConn) SetWriteDeadline(t time.Time) error {
+	e := c.e
+	return setDeadline("tcp", func() bool { return e.closed }, func() { e.wdl = t })
+}
+func (c *TCPConn) SetKeepAlive(bool) error                { return nil }
+func (c *TCPConn) SetKeepAlivePeriod(time.Duration) error { return nil }
+func (c *TCPConn) SetNoDelay(bool) error                  { return nil }
+func (c *TCPConn) SetLinger(int) error                    { return nil }
+func (c *TCPConn) SetReadBuffer(int) error                { return nil }
+func (c *TCPConn) SetWriteBuffer(int) error               { return nil }
+
+type shutOp struct {
+	e   *TCPEnd
+	err error
+}
+
+func (o *shutOp) Ready() bool { return true }
+func (o *shutOp) Do() {
+	if o.e.closed {
+		o.err = &net.OpError{Op: "close", Net: "tcp", Err: net.ErrClosed}
+		return
+	}
+	o.e.doCloseWrite(o.e.n.latency())
+}
+func (o *shutOp) OpName() string { return "shutdown-write" }
+
+//go:norace
+func (c *TCPConn) CloseWrite() error {
+	op := &shutOp{e: c.e}
+	simrt.Trap(op, true)
+	return cloneErr(op.err)
+}
+
+// Dialer: the subset of net.Dialer a small program uses. Timeouts never expire (simulated connects are immediate).
+type Dialer struct {
+	Timeout   time.Duration
+	Deadline  time.Time
+	LocalAddr net.Addr
+	KeepAlive time.Duration
+}
+
+func (d *Dialer) Dial(network, address string) (net.Conn, error) {
+	if la, ok := d.LocalAddr.(*net.TCPAddr); ok && la != nil {
+		switch network {
+		case "tcp", "tcp4", "tcp6":
+			ip, port, err := resolveHostPort(network, address)
+			if err != nil {
+				return nil, err
+			}
+			return DialTCP(network, la, &net.TCPAddr{IP: ip, Port: port})
+		}
+	}
+	return Dial(network, address)
+}
 
 // ProxyEnds lists connection ends held by the program.
 func (n *Net) ProxyEnds() []*TCPEnd {
